@@ -196,7 +196,9 @@ def run_tlc(spec: str, cfg: str | None = None, *, cfg_text: str | None = None,
             cfg_path = os.path.join(SPEC_DIR, cfg or f'{spec}.cfg')
         if workers == 'auto':
             workers = min(16, os.cpu_count() or 1)
-        jopts = [f'-Xmx{heap}', '-XX:+UseParallelGC']
+        # (TLC unpacks its standard modules into java.io.tmpdir and leaves them there: keep that
+        # inside the scratch directory, which is removed afterwards)
+        jopts = [f'-Xmx{heap}', '-XX:+UseParallelGC', f'-Djava.io.tmpdir={scratch}']
         if deque:
             jopts.append('-Dtlc2.tool.queue.IStateQueue=StateDeque')
         cmd = ['java', *jopts, '-cp', JAR, 'tlc2.TLC',
@@ -377,7 +379,8 @@ def validate_traces(spec: str, traces: list, *, consts: str = '', shards: int = 
 
 
 def sany(spec: str) -> None:
-    p = subprocess.run(['java', '-cp', JAR, 'tla2sany.SANY', os.path.join(SPEC_DIR, f'{spec}.tla')],
+    p = subprocess.run(['java', f'-Djava.io.tmpdir={tempfile.gettempdir()}', '-cp', JAR, 'tla2sany.SANY',
+                        os.path.join(SPEC_DIR, f'{spec}.tla')],
                        capture_output=True, text=True, cwd=SPEC_DIR)
     if p.returncode != 0 or 'error' in p.stdout.lower() and 'Semantic errors' in p.stdout:
         raise MachineryError(f'SANY failed for {spec}:\n{p.stdout[-3000:]}')
